@@ -302,10 +302,11 @@ func (n *node) step(op int) bool {
 			n.failf("reported-head-not-log-end", "NewTerm(%d) answered head (%d,%d) but the log ends at (%d,%d)", t, h.Term, h.Offset, wt, wo2)
 		}
 	case opAppendNext:
-		if n.ackTerm < 0 || n.brokenSnapshot {
-			// after an interrupted transfer a leader sends the snapshot again, it does not stream entries
+		if n.ackTerm < 0 {
 			return false
 		}
+		// (after an interrupted transfer the node is empty and reports an empty log: a leader either sends a
+		// snapshot again or, when it has committed nothing itself yet, streams its log from offset 0)
 		if !n.ensureStream(n.ackTerm) {
 			return false
 		}
@@ -318,6 +319,10 @@ func (n *node) step(op int) bool {
 		}
 		s.Settle()
 		if len(*n.acks) > before {
+			n.brokenSnapshot = false
+			if off == 0 {
+				n.first = 0
+			}
 			n.hist[off] = e
 			n.last = off
 			n.ackedFrom[off] = n.ackTerm
@@ -599,6 +604,9 @@ func (n *node) invariants(after string) {
 	}
 }
 
+// Prefix: events run before every sequence (a non-initial start state); they are not part of the depth.
+var Prefix []int
+
 // body runs one event sequence.
 func body(seq []int, out *outcome) func(s *vsched.Sched) {
 	return func(s *vsched.Sched) {
@@ -624,6 +632,12 @@ func body(seq []int, out *outcome) func(s *vsched.Sched) {
 			return
 		}
 		s.Settle()
+		for _, op := range Prefix {
+			if !n.step(op) || len(n.fails) > 0 {
+				out.Fails = append(n.fails, fail{"harness-setup", "cannot build the start state"})
+				return
+			}
+		}
 		out.Applicable = true
 		for i, op := range seq {
 			ok := n.step(op)
@@ -747,16 +761,23 @@ func workerPass(r *wresult, idx, nw, prev, depth int, ops []int, deadline time.T
 	rec(nil)
 }
 
+// Preloaded is the start state of the preloaded search: a follower that holds two entries of its leader and
+// has applied the first.
+func Preloaded() []int { return []int{opNewTermNext, opAppendNext, opAppendNext} }
+
+// QuickDepth / ThoroughDepth: search depths (a harness with a preloaded start state lowers them).
+var QuickDepth, ThoroughDepth = 5, 7
+
 // Main runs the search for one property. keep selects the failure keys that count for it.
 func Main(property string, keep map[string]bool, rule string) int {
 	replay := flag.String("replay", "", "replay file")
 	flag.Parse()
 	oxh.Quiet()
 	tier := os.Getenv("VERIF_TIER")
-	depth := 5
+	depth := QuickDepth
 	budget := 70 * time.Second
 	if tier == "thorough" {
-		depth = 7
+		depth = ThoroughDepth
 		budget = 20 * time.Minute
 	}
 	depths := []int{depth}
